@@ -23,10 +23,13 @@ def part3_wiring(ctx):
     kp, pkp = a[0], a[1]
     key_package_consistent(ctx, p3, kp)
     S = unwrap_newtypes(get_field(kp, "signing_share"))
-    item = next_item(arg(3))
-    good = (S[0] == "phi" and any(is_call(x, name="zero") for x in S[2])
-            and any(is_call(x, name="add") and mentions(x, lambda s: fld(tfield(item, 1), "signing_share")(s)) for x in S[2])
-            and any(is_call(x, name="add") and mentions(x, fld(arg(1), "secret_share")) for x in S[2]))
+    from .c01 import total_of
+    red, own = total_of(P, p3, v, S)
+    good = red is not None and red["source"] is not None and strip_iter_calls(red["source"]) == ("arg", 3) and \
+        len(red["init"]) == 1 and is_call(red["init"][0], name="zero") and len(red["steps"]) == 1 and not red["skippable"] and \
+        not red["early_exit"] and is_call(red["steps"][0], name="add") and red["steps"][0][2][0] == ACC and \
+        fld(lambda t: t == ("field", ITEM, None, "1"), "signing_share")(strip_newtype_fields(red["steps"][0][2][1])) and \
+        fld(arg(1), "secret_share")(strip_newtype_fields(own))
     ctx.check(good, "PROV", p3.key, "share==sum(received)+own",
               "the signing share must be the sum of every received round-two share plus the participant's own share: %s"
               % fmt(S)[:200], p3.loc)
@@ -37,18 +40,12 @@ def part3_wiring(ctx):
     ctx.check(fld(arg(1), "identifier")(get_field(kp, "identifier")) and fld(arg(1), "min_signers")(get_field(kp, "min_signers")), "COPY", p3.key,
               "identifier-and-threshold-from-own-secret-package", "identifier / threshold of the key package must come from the participant's own secret package", p3.loc)
     if pk_src(pkp):
-        m = pkp[1][2][0]
-        good = is_call(m, name="collect") and is_call(m[2][0], name="chain")
-        if good:
-            first, second = m[2][0][2]
-            good = (is_call(first, name="map") and is_call(first[2][0], name="iter") and first[2][0][2][0] == ("arg", 2)
-                    and is_call(second, name="once") and second[2][0][0] == "agg"
-                    and fld(arg(1), "identifier")(second[2][0][4][0][1]) and fld(arg(1), "commitment")(second[2][0][4][1][1]))
-            if good:
-                cf = P.fns.get(first[2][1][1]) if first[2][1][0] == "closure" else None
-                ct = TermCx(P, cf).local(0) if cf else None
-                good = ct is not None and ct[0] == "agg" and ct[4][0][1] == ("field", ("arg", 2), None, "0") and \
-                    is_field(ct[4][1][1], "Package", "commitment") and ct[4][1][1][1] == ("field", ("arg", 2), None, "1")
+        comps = map_components(P, p3, v, pkp[1][2][0])
+        each = [c for c in comps if c[0] == "each"]
+        one = [c for c in comps if c[0] == "one"]
+        good = len(comps) == 2 and len(each) == 1 and len(one) == 1 and each[0][1] == ("arg", 2) and \
+            each[0][2] == ("field", ITEM, None, "0") and is_field(each[0][3], "Package", "commitment") and \
+            each[0][3][1] == ("field", ITEM, None, "1") and fld(arg(1), "identifier")(one[0][1]) and fld(arg(1), "commitment")(one[0][2])
         ctx.check(good and {k for k in adaptor_inventory(p3) if k not in LOOKUPS} == set(), "PROV", p3.key,
                   "commitments==all-round1+own",
                   "the public key package must be derived from every round-one commitment (filed under its sender) plus the "
